@@ -32,7 +32,7 @@ def run(ctx):
                 "legacy-selftest", expect_violation=True, workers=4)
     # transition cover over 3 ids (every transition of the abstract state graph, reached through one representative history)
     scripts = ctx.tlc_gen("MC_Quorum", GEN.format(ids="{1,2,3}", maxh=8 if q else 10, maxcfg=2, view="View", bound="Bound",
-                                                  emit="ACTION_CONSTRAINT Emit", extra=""), "cover3", workers=8)
+                                                  emit="ACTION_CONSTRAINT Emit", extra=""), "cover3", workers=8, coverage=True)
     if not q:
         # state cover over 4 ids and design check over 5 ids
         scripts += ctx.tlc_gen("MC_Quorum", GEN.format(ids="{1,2,3,4}", maxh=12, maxcfg=2, view="View", bound="Bound",
